@@ -186,6 +186,38 @@ CHECKS = {
                 'evidence (evaluations / distinct_nontrivial are measured from the run).',
         'technique': 'bounded sweep of the real trainer (labelled stand-in, not proof) + supporting Verus obligations on the functions within reach',
     },
+    'C12': {
+        'level': 'exploration',
+        'text': 'BOUNDED stand-in (per-token liblinear training cannot be brought within the verifier\'s reach): 3 tagged corpora x 6 configurations x '
+                'with/without tag dictionary are trained on the real crate; the serialised model is decoded and its tag models compared with a reference '
+                'written from the statement (distinct tags per token and category in order of first observation, dictionary-only tokens, score vectors '
+                'sized to the trainable candidates), and the tagger is run on the training sentences and on an unseen token.',
+        'design_ref': 'DESIGN.md section 5.C12',
+        'note': 'Not a proof. The equality of stored scores with the learned classifier is not checked (coefficients are not observable). The feature '
+                'ranges of TagTrainer::add_example were repaired under C11 (cd9204e).',
+        'technique': 'bounded sweep of the real trainer against a reference written from the statement (labelled stand-in, not proof)',
+    },
+    'C17': {
+        'level': 'exploration',
+        'text': 'BOUNDED stand-in on the one KyTea model shipped with the repository: every truncation inside the part the reader consumes is rejected '
+                'with an error (no panic), the complete file converts to the recorded known answer, whose structure (own-window vectors, type codes, '
+                'dictionary vectors), usability and scores (against the brute-force linear model over the decoded weights) are checked.',
+        'design_ref': 'DESIGN.md section 5.C17',
+        'note': 'Not a proof and one file only; the known answer is a regression oracle recorded from the pinned tree.',
+        'technique': 'bounded sweep of the real reader/converter on one model file with a recorded known answer (labelled stand-in, not proof)',
+    },
+    'C20': {
+        'level': 'exploration',
+        'text': 'BOUNDED stand-in (process-level behaviour of main()): the predict and evaluate binaries are built from /repo on every run and executed '
+                'under every flag combination of the statement on fixed inputs; predict\'s stdout is compared byte for byte with the library pipeline '
+                '(normalise unless --no-norm, predict, filters, tags, copy boundaries/tags to the original line, write; score blocks after their line), '
+                'evaluate\'s output with an independent implementation of the character confusion counts and Nagata\'s word matching.',
+        'design_ref': 'DESIGN.md section 5.C20',
+        'note': 'Three genuine defects found and fixed: score block before the newline in --no-norm mode (0cf602b), --tag-scores without '
+                '--predict-tags crashed and a tag-score block was printed for rejected input (e250be9), evaluate --no-norm compared the reference tags '
+                'with themselves (69f449f). Not a proof; bound stated in evidence.',
+        'technique': 'bounded process-level comparison of the real binaries with the library pipeline (labelled stand-in, not proof)',
+    },
     'C13': {
         'level': 'proof',
         'text': 'The predictor unit is verified under BOTH resolutions of the fix-weight-length feature (the extractor evaluates the cfg attributes) '
@@ -220,9 +252,6 @@ CHECKS = {
 }
 
 NOT_APPLICABLE = {
-    'C12': 'per-token liblinear training in tag_trainer.rs: the listing of distinct tags per token and the classifier weights are built inside one function around liblinear FFI calls, f64 quantisation and hashbrown maps keyed by references; no contractable boundary was reached in this session (the feature loops of TagTrainer::add_example are the next candidate)',
-    'C17': 'non-default kytea feature: generic BufRead reader stack, f64, trie walk; the only specification of the format is the reader itself',
-    'C20': 'process-level behaviour of main() (stdin/stdout, clap, zstd); not a per-function contract',
 }
 
 
